@@ -297,7 +297,14 @@ func runC16(r *Report) {
 	// queueing: appends to peer.requested
 	r.Fn(hm)
 	nApp := 0
-	for _, f := range []*ssa.Function{hm, su} {
+	var peerFns []*ssa.Function
+	for _, f := range p.SrcFuncs() {
+		// handleMessage, scheduleUpload, or a helper of package peer the queueing was factored into (enqueueRequested)
+		if relPkg(f) == "peer" {
+			peerFns = append(peerFns, f)
+		}
+	}
+	for _, f := range peerFns {
 		allInstrs(f, func(in ssa.Instruction) {
 			st, ok := isStoreToField(in, req)
 			if !ok {
@@ -321,13 +328,10 @@ func runC16(r *Report) {
 			nApp++
 			key := fmt.Sprintf("%s/append(requested)", fname(f))
 			// R2: only when metadata known and unchoking
-			underAm := false
-			for _, g := range guardsOf(st.Block()) {
-				g = g.norm()
-				if m, pol := isAmLoadNonZero(g.Cond); m && pol == g.Pol {
-					underAm = true
-				}
-			}
+			underAm := p.guardedIP(st, func(g Guard) bool {
+				m, pol := isAmLoadNonZero(g.Cond)
+				return m && pol == g.Pol
+			}, 0)
 			r.Check(underAm, "R2", key+"/only-when-unchoking", st.Pos(), "requests are queued only while unchoking", "a request is queued on a path not dominated by amUnchoking != 0")
 			// R3: len < reqQ on every incoming path: explore backwards from the append; every path must pass either the
 			// false edge of `len(requested) >= reqQ` or a store that shortens the queue (requested[1:])
